@@ -198,8 +198,23 @@ def entries_of(c, F, k, t):
     return pos, pshape, bshape, full, w, mod
 
 
-def py_entry(c, F, k, t, idx):
-    """float evaluation of the model formula for one entry; returns (value, keeps) -- masks per entry"""
+def any_masks(c, F, k, t, full):
+    """the source's masks: a state is kept when SOME batch/position entry has |form| > tol (kmask) and SOME entry has
+    exp(|t| re) > tol (mmask) -- `any` over all leading axes, each mask on its own.  Returns (keeps, non-uniform?)"""
+    kany, many, uniform, first = None, None, True, None
+    for idx in np.ndindex(*full):
+        _, kk, mk = py_entry(c, F, k, t, idx, masks=True)
+        own = [a and b for a, b in zip(kk, mk)]
+        first = own if first is None else first
+        uniform = uniform and own == first
+        kany = kk if kany is None else [a or b for a, b in zip(kany, kk)]
+        many = mk if many is None else [a or b for a, b in zip(many, mk)]
+    return [a and b for a, b in zip(kany, many)], not uniform
+
+
+def py_entry(c, F, k, t, idx, keeps=None, masks=False):
+    """float evaluation of the model formula for one entry.  keeps: the keep list in force (any_masks); None: this entry's own
+    decision.  Returns (value, keeps) or, with masks=True, (value, kmask list, mmask list) of this entry alone"""
     pos, pshape, bshape, full, w, mod = entries_of(c, F, k, t)
     b, p = idx[:len(bshape)], idx[len(bshape):]
     Fb = F[b]
@@ -209,30 +224,36 @@ def py_entry(c, F, k, t, idx):
     tol = c.get("tol") if c.get("tol") is not None else 1e-8
     size = c.get("voxel_size", 1) if c.get("voxel_size") is not None else 1
     sizes = list(size) if isinstance(size, list) else [size] * kb.shape[-1]
-    val, keeps = 0j, []
+    val, own, kks, mks = 0j, [], [], []
     for j in range(Fb.shape[-1]):
         form = 1.0
         keep = True
+        kk = mk = True
         if c["voxel_shape"] == "box":
             for a in range(kb.shape[-1]):
                 form *= np_sinc(kb[j, a] * sizes[a] / 2 / np.pi)
-            keep = abs(form) > tol
+            keep = kk = bool(abs(form) > tol)
         m = 1.0 + 0j
         if tb is not None and mod is not None:
             mr = np.exp(abs(tb[j]) * mod[idx].real)
-            keep = keep and (mr > tol)
+            mk = bool(mr > tol)
+            keep = keep and mk
             m = mr
             if np.iscomplexobj(mod):
                 m = m * np.exp(1j * tb[j] * 2 * np.pi * mod[idx].imag)
         if c.get("phase") is not None:
             m = m * np.exp(1j * c["phase"] * np.pi / 180)
-        keeps.append(bool(keep))
-        if keep:
+        own.append(bool(keep))
+        kks.append(kk)
+        mks.append(mk)
+        if (keep if keeps is None else keeps[j]):
             term = form * m * Fb[j] * np.exp(1j * float(np.dot(kb[j, :len(x)], x)))
             if w is not None:
                 term = term * w[idx]
             val += term
-    return val, keeps
+    if masks:
+        return val, kks, mks
+    return val, own
 
 
 def reduced_layout(c, full):
@@ -293,9 +314,11 @@ def coq_entry(c, F, k, t, idx, keeps):
     xs = "[%s]" % "; ".join(R(a) for a in x)
     term = "img_list [%s] %s %s [%s]" % ("; ".join(core.coq_bool(keeps[j]) for j in sel), cfg, xs, "; ".join(states))
     facts = []
+    own = py_entry(c, F, k, t, idx)[1]
     for j, s in zip(sel, states):
         if keeps[j]:
-            facts.append("keepP %s (%s)" % (cfg, s))
+            if own[j]:      # otherwise the state is kept on account of another entry (`any`): no fact for this entry
+                facts.append("keepP %s (%s)" % (cfg, s))
         else:
             # which mask dropped it (harness side choice, the fact itself is proved in Coq)
             form = 1.0
@@ -327,6 +350,12 @@ def gen_case(rng, stream):
         # batch-dependent phase-state times / wavenumbers: C(tau) with one delay per batch entry, batched shifts
         d, timed, kind, batch, nblock = rng.choice([1, 1, 2]), True, "float", False, rng.choice([1, 2, 2])
         BT = rng.choice([1, 2, 2, 3, 3])
+    AM = None
+    if stream == "amask":
+        # entry-dependent masks: one voxel / compartment whose exp(rate |t|) (or sinc factor) falls below tol, the others not
+        AM = rng.choice(["mod", "mod", "sinc"])
+        d, timed, kind, batch, nblock = 1, True, "float", False, rng.choice([1, 2])
+        BT = 2 if AM == "sinc" else 0
     ops = []
     tau_total = 0.0
     for b in range(nblock):
@@ -345,7 +374,13 @@ def gen_case(rng, stream):
                 kv = [rng.randint(-8, 8) * kgrid for _ in range(d)]
             if stream == "mask":
                 kv = [rng.choice([0.5, 1.0, -0.5, 0.25, 0.75]) for _ in range(d)]
-            if BT > 1 and rng.random() < 0.3:
+            if AM == "sinc" and b == 0:
+                rows = [[0.5], [rng.choice([0.25, 0.75, 1.25])]]
+                rng.shuffle(rows)
+                ops.append(["Sb", rows])
+            elif AM == "sinc":
+                ops.append(["S", [rng.choice([1.0, -1.0, 2.0])]])
+            elif BT > 1 and rng.random() < 0.3:
                 rows = []
                 for _ in range(BT):
                     kv = [0.0] * d
@@ -355,10 +390,10 @@ def gen_case(rng, stream):
                 ops.append(["Sb", rows])
             else:
                 ops.append(["S", kv])
-        tau = rng.choice([0.5, 1.0, 1.5, 2.0, 3.0])
+        tau = rng.choice([0.5, 1.0, 1.5, 2.0, 3.0]) if AM != "mod" else rng.choice([4.0, 6.0, 10.0])
         if rng.random() < 0.6:
             ops.append(["E", tau, rng.choice([500.0, 1000.0]), rng.choice([40.0, 80.0])])
-        if timed and BT and (b == 0 or rng.random() < 0.5):
+        if timed and BT and AM is None and (b == 0 or rng.random() < 0.5):
             ops.append(["C", rng.sample([0.25, 0.5, 0.75, 1.0, 1.5, 2.0, 2.5, 3.0], BT)])
         elif timed:
             ops.append(["C", tau])
@@ -366,6 +401,8 @@ def gen_case(rng, stream):
     cols = 3 if timed else d
     npos = rng.choice([1, 2, 3]) if stream != "reduce" else rng.choice([1, 2])
     layout = rng.choice(["Pd", "Pd", "flat", "grid"]) if d == 1 else rng.choice(["Pd", "Pd", "Pd", "grid"])
+    if AM == "mod":
+        npos, layout = rng.choice([2, 3]), ("Pd" if rng.random() < 0.7 else "flat")
     if BT:
         # positions: as many as, fewer than, more than batch entries
         npos = rng.choice([BT, BT, max(1, BT - 1), BT + 1, 1])
@@ -420,6 +457,18 @@ def gen_case(rng, stream):
                 im = (np.array(re_, dtype=float) * 0 + np.array(shaped(lambda: rng.randint(-16, 16) / 64))).tolist()
                 rr = (np.array(re_, dtype=float) + 0 * np.array(im)).tolist() if mk == "complex" else (0 * np.array(im)).tolist()
                 c["modulation"] = {"kind": "complex", "re": rr, "im": im}
+    if AM == "mod":
+        # per-voxel T2' rates of widely different size, one of them fast enough to fall below tol after the delays
+        rates = [rng.choice([-3.0, -2.5, -4.0])] + [rng.choice([-0.03125, -0.125, -0.5, -1.0]) for _ in range(npos - 1)]
+        rng.shuffle(rates)
+        sh = (npos,) if via == "args" else (1, npos)
+        cplx = rng.random() < 0.5
+        c["modulation"] = {"kind": "complex" if cplx else "real", "re": np.array(rates).reshape(sh).tolist(),
+                           "im": np.array([rng.randint(-16, 16) / 64 for _ in range(npos)]).reshape(sh).tolist() if cplx else None}
+    if AM == "sinc":
+        c["voxel_shape"], c["voxel_size"] = "box", float(2 * np.pi / 0.5)      # sinc(k D / 2 pi) = sinc(2 k): zero for k = 0.5 only
+        if c.get("modulation") is not None and rng.random() < 0.5:
+            del c["modulation"]
     if rng.random() < 0.6:
         c["weights"] = shaped(lambda: rng.randint(1, 12) / 4)
     if rng.random() < 0.4:
@@ -436,7 +485,7 @@ def gen_case(rng, stream):
             c["reduce"] = 0
     else:
         c["reduce"] = rng.choice([False, False, False, "default"]) if int(np.prod(full)) > 1 else rng.choice([False, "default", True])
-    if BT:
+    if BT or AM:
         c["reduce"] = False
     if stream == "repeat":
         c["repeat"] = 2
@@ -447,7 +496,7 @@ def gen_case(rng, stream):
 def correspondence(ctx):
     quick = ctx.tier == "quick"
     budget = 720 if quick else 8000
-    streams = ["main", "btime", "main", "mask", "btime", "main", "reduce", "mask", "btime", "main", "reduce", "int", "repeat", "repeat"]
+    streams = ["main", "btime", "amask", "mask", "btime", "main", "reduce", "mask", "btime", "main", "reduce", "int", "repeat", "repeat"]
     goals, meta = [], []
     units, ncase, skipped, nform = 0, 0, 0, 0
     dist = {}
@@ -466,15 +515,8 @@ def correspondence(ctx):
         # masks: `any` over all entries in the source; in the mask stream k, t are batch-independent and the modulation
         # uniform; elsewhere (btime: batch-dependent t / k) the parameters keep every state, so every entry must
         # take the same decision
-        keeps0 = None
-        uniform = True
-        for idx in np.ndindex(*full):
-            _, ks = py_entry(c, F, k, t, idx)
-            keeps0 = ks if keeps0 is None else keeps0
-            uniform = uniform and ks == keeps0
-        if not uniform:
-            skipped += 1
-            continue
+        keeps0, nonuni = any_masks(c, F, k, t, full)
+        skipped += int(nonuni)
         dropped = sum(1 for j, kp in enumerate(keeps0) if not kp and np.any(F[..., j] != 0))
         for a, v in enumerate(vals):
             v = np.asarray(v)
@@ -492,7 +534,7 @@ def correspondence(ctx):
                     nst += n
                     if idx == ents[0]:
                         facts = fs
-                    ref += py_entry(c, F, k, t, idx)[0]
+                    ref += py_entry(c, F, k, t, idx, keeps=keeps0)[0]
                 tolv = 1e-9 * (1 + abs(obs))
                 if abs(ref - obs) > tolv:
                     nform += 1
@@ -515,7 +557,7 @@ def correspondence(ctx):
         ctx.sample({"stream": stream, "voxel": c["voxel_shape"], "size": c.get("voxel_size"), "modulation": c.get("modulation"),
                     "reduce": str(c.get("reduce")), "via": c.get("via"), "nstate": int(F.shape[-1]), "entries": list(full)})
     ctx.cov["tie_cases_by_stream"] = dist
-    ctx.cov["tie_cases_skipped_nonuniform_mask"] = skipped
+    ctx.cov["tie_cases_entry_dependent_mask"] = skipped
     # shards
     nsh = max(1, min(core.NPROC, len(goals)))
     files = []
@@ -693,6 +735,42 @@ def gen_oracle_btime(rng):
             "via": rng.choice(["args", "system"]), "voxel": rng.choice(["point", "box"]), "size": rng.choice([0.3, 0.5, 0.8, 1.25])}
 
 
+def oracle_amask(c):
+    """per-voxel modulation rates of widely different size (entry-dependent masks): every voxel of the array-valued run vs the
+    scalar re-run of that voxel alone (its own position, rate, weight).  The two may differ by the states one of them masks:
+    at most tol * sum |w F_j| each (C15_mask_error_bound).  Returns (error or None, text)"""
+    try:
+        vals, F, k, t = run_case(c)
+    except Exception as e:
+        return 1.0, "array-valued run raises %s: %s" % (type(e).__name__, str(e)[:160])
+    pos, pshape, bshape, full, w, mod = entries_of(c, F, k, t)
+    v = np.asarray(vals[0])
+    if v.shape != tuple(full):
+        return 1.0, "array-valued run returns shape %s, expected %s" % (v.shape, tuple(full))
+    worst, txt = None, ""
+    for idx in np.ndindex(*full):
+        p = idx[len(bshape):]
+        c1 = dict(c, pos=[pos[p].tolist()], via="args")
+        if mod is not None:
+            z = complex(mod[idx])
+            c1["modulation"] = {"kind": c["modulation"]["kind"], "re": z.real, "im": z.imag if c["modulation"]["kind"] == "complex" else None}
+        if w is not None:
+            c1["weights"] = float(w[idx])
+        if len(bshape) == 1 and bshape[0] > 1:
+            c1["ops"] = entry_ops(c["ops"], idx[0])       # the scalar sequence of this batch entry
+        r1 = np.ravel(run_case(c1)[0][0])
+        if r1.size != 1:
+            return 1.0, "scalar re-run of entry %s returns %d values" % (list(idx), r1.size)
+        ref = complex(r1[0])
+        wabs = 1.0 if w is None else abs(float(w[idx]))
+        bound = 1e-9 * (1 + abs(ref)) + 2e-8 * wabs * float(np.abs(F[idx[:len(bshape)]]).sum())
+        e = abs(complex(v[idx]) - ref)
+        if e > bound and (worst is None or e > worst):
+            worst, txt = e, "voxel %s (rate %s): array-valued run %r, scalar re-run of this voxel %r" % (
+                list(idx), None if mod is None else complex(mod[idx]), complex(v[idx]), ref)
+    return worst, txt
+
+
 def gen_oracle_ops(rng, d, timed=True, relax=True):
     ops = []
     for b in range(rng.choice([2, 3])):
@@ -755,6 +833,19 @@ def oracle(ctx):
                 ctx.report("Imaging with a modulation on a batch of delays (batch-dependent phase-state times) differs from the per-entry "
                            "scalar run / off-resonant isochromats by %.3g: %s" % (err, txt), dict(c, detail=txt), found_input=True,
                            signature={"oracle": "batched-times"})
+    nam, n5 = 0, (6 if quick else 100)
+    for _ in range(n5):
+        c = dict(gen_case(rng, "amask"), kind="oracle_amask")
+        err, txt = oracle_amask(c)
+        runs += 1
+        ctx.count(("oracle_amask", json.dumps(c, sort_keys=True)))
+        if err is not None:
+            nam += 1
+            if nam <= 2:
+                ctx.report("Imaging with per-voxel / per-compartment modulation rates (or batched gradients) of which one is masked: %s (|diff| %.3g); "
+                           "a state negligible for ONE entry must stay for the others" % (txt, err), dict(c, detail=txt), found_input=True,
+                           signature={"oracle": "entry-dependent-mask"})
+    ctx.cov["oracle_entry_dependent_mask_runs"] = n5
     ctx.cov["oracle_batched_time_runs"] = n4
     ctx.cov["oracle_runs"] = runs
     ctx.cov["evaluations"] += runs
@@ -1044,7 +1135,7 @@ def replay(ctx, rp):
         worst = 0.0
         for a, v in enumerate(vals):
             for oi, ents in layout.items():
-                ref = sum(py_entry(c, F, k, t, idx)[0] for idx in ents)
+                ref = sum(py_entry(c, F, k, t, idx, keeps=any_masks(c, F, k, t, full)[0])[0] for idx in ents)
                 worst = max(worst, abs(ref - complex(np.asarray(v)[oi])) / (1 + abs(ref)))
         print("replay: max relative |Imaging - formula| = %.3g" % worst)
         return 1 if worst > 1e-9 else 0
@@ -1064,6 +1155,10 @@ def replay(ctx, rp):
         why = redefine_verdict(rp)
         print("replay: %s" % (why or "System route and argument route agree on every block"))
         return 1 if why else 0
+    if kind == "oracle_amask":
+        err, txt = oracle_amask(rp)
+        print("replay: %s" % ("|diff| %.3g: %s" % (err, txt) if err else "array-valued run agrees with the per-voxel scalar re-runs"))
+        return 1 if err else 0
     if kind == "oracle_btime":
         err, txt = oracle_btime(rp)
         print("replay: %s (%s)" % ("max |diff| %.3g" % err if err else "no discrepancy", txt))
